@@ -35,7 +35,10 @@ func InitGenesis(ctx sdk.Ctx, keeper keeper.Keeper, supplyKeeper types.AuthKeepe
 		}
 		// set the validators from the data
 		keeper.SetValidator(ctx, validator)
-		keeper.SetStakedValidator(ctx, validator)
+		// only staked validators belong in the power index (an unstaking one has no voting power)
+		if validator.IsStaked() {
+			keeper.SetStakedValidator(ctx, validator)
+		}
 		// ensure there's a signing info entry for the validator (used in slashing)
 		_, found := keeper.GetValidatorSigningInfo(ctx, validator.GetAddress())
 		if !found {
@@ -55,8 +58,8 @@ func InitGenesis(ctx sdk.Ctx, keeper keeper.Keeper, supplyKeeper types.AuthKeepe
 			// setup the unstaking validator
 			keeper.SetUnstakingValidator(ctx, validator)
 		}
-		// if the validator is staked then add their tokens to the staked pool
-		if validator.IsStaked() {
+		// the staked pool holds the tokens of staked and of unstaking validators (they are paid back from it at maturity)
+		if validator.IsStaked() || validator.IsUnstaking() {
 			stakedTokens = stakedTokens.Add(validator.GetTokens())
 		}
 	}
